@@ -234,7 +234,7 @@ func genJSON(t *rapid.T) JSONCase {
 	for i := 0; i < n; i++ {
 		sep := ws(t)
 		doc := drawJSONValue(t, depth)
-		if rapid.IntRange(0, 39).Draw(t, "long?") == 0 {
+		if rapid.IntRange(0, 39).Draw(t, "long?") == 17 {
 			doc = drawLongDoc(t)
 		}
 		if i > 0 && sep == "" {
